@@ -82,6 +82,8 @@ package bebop
 
 //@ func (*tokenTree).find
 //@   requires v != nil
+// the recursion over the token tree goes on only after a byte of the finite input has been taken
+//@   assert before "return t.find(tr, concrete)": [RECTERM] ghost("left", tr.r) < old(ghost("left", tr.r))
 // a node that is not terminal reads at least one byte before it yields a token or gives up without an error
 //@   ensures [PROGRESS] (!old(v.isTerminal) && (result1 || len(tr.errs) == old(len(tr.errs)))) ==> ghost("left", tr.r) <= old(ghost("left", tr.r)) - 1
 //@   requires tr != nil && tr.r != nil && tr.tree != nil && ghost("left", tr.r) >= 0
@@ -273,12 +275,15 @@ package bebop
 // The bit-flag expression parser and evaluator work on the token slice they are given and on the enum options
 // read so far: no panic (index, slice, negative shift count) and nothing but fresh memory is written. What they
 // compute is not specified (C15).
+// the mutual recursion of the expression parser is on strictly shorter token slices
 //@ func parseBitflagExpr
+//@   assert before "rhs, err := parseBitflagExpr(toks[i:])": [RECTERM] i >= 1 && i <= len(toks)
 //@   modifies fresh(), any(string), alloc()
 //@ func parseParenExpr
-//@   requires 0 <= j && j <= len(tokens)
+//@   requires 1 <= j && j <= len(tokens)
 //@   ensures err == nil ==> 0 <= newI && newI <= len(tokens)
-//@   invariant loop 1: startJ <= j && j <= len(tokens) && 0 <= startJ
+//@   invariant loop 1: startJ <= j && j <= len(tokens) && 1 <= startJ
+//@   assert before "inner, err := parseBitflagExpr(tokens[startJ:j])": [RECTERM] startJ >= 1 && j <= len(tokens)
 //@   modifies fresh(), any(string), alloc()
 //@ func evaluateBitflagExpr
 //@   modifies fresh(), any(string), alloc()
